@@ -842,7 +842,7 @@ class Executor:
                 self.havoc(old, depth + 1)
 
     # ---- main loop -------------------------------------------------------------------------------------------------------
-    def run(self, func, args, start_bb="bb0", stop_bbs=()):
+    def run(self, func, args, start_bb="bb0", stop_bbs=(), init=None):
         """explore every path through func from the given argument values; returns list of (Path, return value|None).
         start_bb / stop_bbs: explore only a region of the body (one loop iteration from an arbitrary state): execution
         starts at start_bb with every local it reads before writing symbolic, and a path that enters one of stop_bbs
@@ -852,6 +852,8 @@ class Executor:
             raise Unsupported(f"arity mismatch calling {func.name}: {len(args)} vs {len(func.params)}")
         for (pn, pt), a in zip(func.params, args):
             f0.cells[pn] = Cell(a)
+        for ln_, lv_ in (init or {}).items():      # region exploration: named pre-state of locals
+            f0.cells[ln_] = Cell(lv_)
         work = [State(Path(), [f0], start_bb)]
         self._stop_bbs = set(stop_bbs)
         self._start_bb = start_bb
